@@ -202,7 +202,7 @@ class AppRun:
 
     def __init__(self, site, argv, chooser, *, strategy=None, workdir=None,
                  connect='immediate', watchdog=20.0, horizon=60000, early=True,
-                 hooks=None, peer=None, chunk=None):
+                 hooks=None, peer=None, chunk=None, bad_cert=()):
         self.site, self.argv, self.chooser = site, list(argv), chooser
         self.strategy = strategy
         self.workdir = workdir
@@ -214,6 +214,7 @@ class AppRun:
         self.hooks = hooks or {}
         self.custom_peer = peer
         self.chunk = chunk
+        self.bad_cert = set(bad_cert)
         self.result = None
 
     def run(self, faults=None, on_step=None, on_quiescent=None, setup=None):
@@ -225,6 +226,7 @@ class AppRun:
         env = Env(loop)
         peer = self.custom_peer or SitePeer(self.site, self.strategy)
         net = Net(loop, env, peer, connect=self.connect, chunk=self.chunk).install()
+        net.bad_cert = set(self.bad_cert)
         # fake connections remember the host *name* through the resolver table
         orig_open = net.open_connection
 
@@ -237,8 +239,9 @@ class AppRun:
         os.chdir(wd)
         root_level = logging.getLogger().level
         try:
-            argv = self.argv + ['-P', wd, '--html-parser', 'html5lib', '--very-quiet',
-                                '--no-check-certificate']
+            argv = self.argv + ['-P', wd, '--html-parser', 'html5lib', '--very-quiet']
+            if not self.bad_cert:
+                argv.append('--no-check-certificate')
             args = AppArgumentParser().parse_args(argv)
             builder = Builder(args, unit_test=True)
             builder.factory.class_map['Resolver'] = make_resolver_class(
